@@ -96,6 +96,61 @@ def deliver (db : Hash → Option SNode) (fuel : Nat) : MS → List Item → MS 
   | s, .garbage :: _ => (s, false)
   | s, .node h n :: r => deliver db fuel (restoreNode db fuel s h n) r
 
+/-! ### Storage-item mode (ContractStorageBased): (*Module).AddContractStorageItems, module.go:609-668
+
+Generic in the trie: `T` the local trie with `putBatch` (= MapToMPTBatch + Trie.PutBatch of a Go map given
+as a key-distinct list) and `root` (= StateRoot); Proofs/StateSyncItems.lean instantiates it with the C10
+model `NeoModel.Mpt`. Re-creating the trie from the checkpoint's intermediate root (defineSyncStage,
+module.go:359-383) yields the same trie (it is loaded lazily from the same store), so a restart only
+recomputes the stage from the persisted checkpoint. -/
+
+structure TrieOps (T K V R : Type) where
+  putBatch : T → List (K × V) → T
+  root : T → R
+
+/-- `batch[string(key)] = kv.Value` in a loop (module.go:634-636): the last value of a key wins. -/
+def goMap {K V : Type} [BEq K] : List (K × V) → List (K × V)
+  | [] => []
+  | e :: r => if r.any (fun x => x.1 == e.1) then goMap r else e :: goMap r
+
+structure ItemSt (T K V R : Type) where
+  trie : T                       -- localTrie
+  temp : K → Option V            -- temporary contract storage
+  lastKey : Option K             -- lastStoredKey
+  ckpt : Option (R × R)          -- persisted checkpoint: (IntermediateRoot, Root)
+  synced : Bool                  -- mptSynced
+
+def ItemSt.init {T K V R : Type} (empty : T) : ItemSt T K V R :=
+  { trie := empty, temp := fun _ => none, lastKey := none, ckpt := none, synced := false }
+
+/-- AddContractStorageItems; the Boolean is "no error". -/
+def addItems {T K V R : Type} [BEq K] [DecidableEq R] (ops : TrieOps T K V R) (root : R)
+    (s : ItemSt T K V R) (kvs : List (K × V)) : ItemSt T K V R × Bool :=
+  if s.synced then (s, false)              -- "contract storage items were not requested"
+  else if kvs.isEmpty then (s, false)      -- "key-value pairs are empty"
+  else
+    let m := goMap kvs
+    let trie' := ops.putBatch s.trie m
+    let r := ops.root trie'
+    ({ trie := trie',
+       temp := fun k => (m.lookup k).or (s.temp k),   -- PutChangeSet: the batch overrides
+       lastKey := kvs.getLast?.map (·.1),
+       ckpt := some (r, root),
+       synced := decide (r = root) }, true)
+
+/-- Module re-creation: the stage is recomputed from the checkpoint (module.go:377-382). -/
+def restartItems {T K V R : Type} [DecidableEq R] (s : ItemSt T K V R) : ItemSt T K V R :=
+  { s with synced := match s.ckpt with
+                     | some (ir, r) => decide (ir = r)
+                     | none => false }
+
+/-- What the NeoFS state fetcher does after a (re)start (statefetcher.go:380-420): stream the items of the
+state object in their order, skipping everything up to and including the last stored key. -/
+def resumeFrom {K V : Type} [BEq K] (lastKey : Option K) (items : List (K × V)) : List (K × V) :=
+  match lastKey with
+  | none => items
+  | some k => (items.dropWhile (fun x => x.1 != k)).drop 1
+
 /-- Several AddMPTNodes calls (a failed call keeps what its earlier items did). -/
 def batches (db : Hash → Option SNode) (fuel : Nat) (s : MS) (bs : List (List Item)) : MS :=
   bs.foldl (fun s b => (deliver db fuel s b).1) s
@@ -128,6 +183,11 @@ refusing a repeated transaction hash (the root alone does not exclude one). Hash
 (a collision-free hash = structural equality of the hashed terms): `calcMerkle` is hash.CalcMerkleRoot
 (crypto/hash/merkle_tree.go:74-97) including its duplication of the last element of an odd level. -/
 
+/-- module.go:520-527: no transaction hash twice. -/
+def noRepeatH : List Nat → Bool
+  | [] => true
+  | a :: r => !r.contains a && noRepeatH r
+
 inductive MTree
   | zero
   | leaf (i : Nat)
@@ -145,8 +205,24 @@ def calcMerkle : Nat → List MTree → MTree
   | 0, _ => .zero
   | f + 1, l => calcMerkle f (pairUp l)
 
-/-- Does AddBlock accept transaction list `body` (transaction identities) for a block whose real list is
-`orig`? -/
+/-- hash.CalcMerkleRoot over actual hash values: `h2 l r` = DoubleSha256(l ‖ r), `z` = the zero hash. -/
+def pairUpH (h2 : Nat → Nat → Nat) : List Nat → List Nat
+  | [] => []
+  | [a] => [h2 a a]
+  | a :: b :: r => h2 a b :: pairUpH h2 r
+
+def calcMerkleH (h2 : Nat → Nat → Nat) (z : Nat) : Nat → List Nat → Nat
+  | _, [] => z
+  | _, [a] => a
+  | 0, _ => z
+  | f + 1, l => calcMerkleH h2 z f (pairUpH h2 l)
+
+/-- The body check of AddBlock over actual hash values (`txh i` = hash of transaction `i`). -/
+def acceptsBodyH (txh : Nat → Nat) (h2 : Nat → Nat → Nat) (z : Nat) (orig body : List Nat) : Bool :=
+  calcMerkleH h2 z (body.length + 1) (body.map txh) == calcMerkleH h2 z (orig.length + 1) (orig.map txh)
+    && noRepeatH (body.map txh)
+
+/-- The same check over symbolic hashes (a collision-free hash = structural equality of the hashed terms). -/
 def merkleMatches (orig body : List Nat) : Bool :=
   calcMerkle (body.length + 1) (body.map .leaf) == calcMerkle (orig.length + 1) (orig.map .leaf)
 
@@ -156,6 +232,18 @@ def noRepeat : List Nat → Bool
 
 def acceptsBody (orig body : List Nat) : Bool :=
   merkleMatches orig body && noRepeat body
+
+/-- What happens to the module between two restarts: `AddMPTNodes` calls; and a restart. -/
+inductive Ev
+  | batch (items : List Item)
+  | restart
+
+def runEv (db : Hash → Option SNode) (fuel : Nat) (root : Hash) (s : MS) : Ev → MS
+  | .batch items => (deliver db fuel s items).1
+  | .restart => rebuild db fuel root s
+
+def runEvs (db : Hash → Option SNode) (fuel : Nat) (root : Hash) (s : MS) (evs : List Ev) : MS :=
+  evs.foldl (runEv db fuel root) s
 
 def poolHashes (p : Pool) : List Hash := (p.map (·.1)).eraseDups
 
